@@ -90,8 +90,42 @@ BOOST_MSM_BACK_GENERATE_PROCESS_EVENT(L3)
 BOOST_MSM_BACK_GENERATE_PROCESS_EVENT(L2)
 #endif
 #endif
+// a machine's OWN internal_transition_table with several rows for one event (root machine, and the same table in a submachine):
+// tried from the last-declared to the first-declared, each guard at most once, first enabled row only (C01); same under every policy (C13)
+#if !defined(CFG_back11)
+struct tick {};
+struct IT_ : state_machine_def<IT_> {
+  struct S : state<> {};
+  typedef S initial_state;
+  struct transition_table : mpl::vector<> {};
+  struct internal_transition_table : mpl::vector< Internal<tick, A<10>, G<0>>, Internal<tick, A<11>, G<1>>, Internal<tick, A<12>, G<2>> > {};
+  template<class F,class Ev> void no_transition(Ev const&,F&,int){ g_log += "NT "; }
+};
+typedef BE<IT_> IT;
+struct ITop_ : state_machine_def<ITop_> {
+  typedef IT initial_state;
+  struct transition_table : mpl::vector<> {};
+  template<class F,class Ev> void no_transition(Ev const&,F&,int){ g_log += "NT "; }
+};
+typedef BE<ITop_> ITop;
+#if IS_BACK_CT
+BOOST_MSM_BACK_GENERATE_PROCESS_EVENT(IT)
+#endif
+template<class M> static void own_internal_table(const char* where) {
+  for (unsigned v = 0; v < 8; ++v) {
+    g_bits = v; M m; m.start(); g_log.clear(); tick t_; int r = (int)m.process_event(t_);
+    std::string exp; bool taken = false;
+    for (int k = 2; k >= 0 && !taken; --k) { exp += "g" + std::to_string(k) + " "; if ((v >> k) & 1) { exp += "a1" + std::to_string(k) + " "; taken = true; } }
+    report(std::string("own-internal-table.") + where + ".bits" + std::to_string(v), g_log == exp && (((r & 1) != 0) == taken), "C01,C13",
+           "guards=" + std::to_string(v) + " ret=" + std::to_string(r) + " log=[" + g_log + "] expected=[" + exp + "]");
+  }
+}
+#endif
 int main(int argc, char** argv) {
   if (argc > 1) g_only = argv[1];
+#if !defined(CFG_back11)
+  own_internal_table<IT>("root"); own_internal_table<ITop>("submachine");
+#endif
   for (unsigned v = 0; v < (1u<<NBITS); ++v) {
     g_bits = v; g_log.clear();
     Top m; m.start(); g_log.clear();
